@@ -720,6 +720,9 @@ func cmdCheck(args []string) int {
 		b, _ := json.MarshalIndent(c.ff, "", " ")
 		sum := sha256.Sum256(b)
 		rdir := filepath.Join(verifDir, "replays", prop)
+		if d := os.Getenv("VERIF_REPLAYS"); d != "" {
+			rdir = filepath.Join(d, prop)
+		}
 		_ = os.MkdirAll(rdir, 0o755)
 		rpath := filepath.Join(rdir, fmt.Sprintf("%d-%s.json", c.ff.Seed, hex.EncodeToString(sum[:4])))
 		if err := os.WriteFile(rpath, b, 0o644); err != nil {
@@ -787,27 +790,27 @@ func cmdCheck(args []string) int {
 		"seed":        int64(seed & 0x7fffffffffffffff),
 		"level":       "exploration",
 		"coverage": map[string]any{
-			"evaluations":         agg.Runs,
-			"distinct_nontrivial": len(union),
-			"nontrivial_runs":     agg.NonTrivial,
-			"rule":                pi.Rule,
-			"samples":             samples,
-			"world":               pi.World,
-			"workers":             tc.Workers,
-			"budget_s_per_worker": tc.Budget,
-			"runs_per_hour":       float64(agg.Runs) / runWall * 3600,
-			"rapid_seeds_used":    agg.Seeds,
-			"simulated_time_s":    agg.SimTimeNs / 1e9,
-			"faults_fired":        faults,
-			"probes_reached":      probes,
-			"skipped_out_of_domain": skips,
+			"evaluations":               agg.Runs,
+			"distinct_nontrivial":       len(union),
+			"nontrivial_runs":           agg.NonTrivial,
+			"rule":                      pi.Rule,
+			"samples":                   samples,
+			"world":                     pi.World,
+			"workers":                   tc.Workers,
+			"budget_s_per_worker":       tc.Budget,
+			"runs_per_hour":             float64(agg.Runs) / runWall * 3600,
+			"rapid_seeds_used":          agg.Seeds,
+			"simulated_time_s":          agg.SimTimeNs / 1e9,
+			"faults_fired":              faults,
+			"probes_reached":            probes,
+			"skipped_out_of_domain":     skips,
 			"oracle_and_other_counters": other,
-			"instrumented_sites":  sc.sites,
-			"components":          comp,
-			"toolchain":           goBin + " -tags verif (GOTOOLCHAIN=local GOPROXY=off)",
-			"known_findings_printed": knownPrinted,
-			"infrastructure_problems": infra,
-			"build_s":             buildS,
+			"instrumented_sites":        sc.sites,
+			"components":                comp,
+			"toolchain":                 goBin + " -tags verif (GOTOOLCHAIN=local GOPROXY=off)",
+			"known_findings_printed":    knownPrinted,
+			"infrastructure_problems":   infra,
+			"build_s":                   buildS,
 		},
 		"assumptions": []string{
 			"sampling, not enumeration: a clean batch is evidence, not proof",
